@@ -87,6 +87,8 @@ def run_job(job):
         from bcheck import c06
         ref, queries, truths = c06.gen(seed)
         refs = [ref]
+    elif job.get('generator') == 'dense':
+        refs, queries, truths = pl.gen_dense_set(seed)
     else:
         refs, queries, truths = pl.gen_set(seed, kinds=job.get('kinds', pl.KINDS), weights=job.get('weights'), odd_refs=job.get('odd_refs', False))
     d = pl.make_workdir(refs, queries, two_colour=(random.Random(seed + 5) if seed % 7 == 3 else None))      # every seventh set is a two-colour CMAP
@@ -102,7 +104,7 @@ def run_job(job):
             cm.reset()
             try:
                 with time_limit(240):
-                    run = pl.run_program(d, mode, param_args(params), style=job.get('style', (seed + mi) % 3))
+                    run = pl.run_program(d, mode, param_args(params), style=job.get('style', random.Random(seed * 31 + mi).randrange(4)))      # (decorrelated from the mode, which also cycles with the set number)
             except CaseTimeout:
                 out['violations'].append(('src/program.py::Program.run::monitor::C07::terminates', None, dict(mode=mode), job, mode))
                 continue
